@@ -19,7 +19,7 @@ from .odecommon import expected_aliases
 LEVEL = "exploration"
 
 # species data by construction: name -> (mass number, charge)
-GAS = {"H": (1, 0), "H2": (2, 0), "O": (16, 0), "OH": (17, 0), "CO": (28, 0), "H2O": (18, 0), "CH3OH": (32, 0), "HCO": (29, 0), "HCO+": (29, 1), "CO2": (44, 0), "H3O+": (19, 1), "OH-": (17, -1), "C+": (12, 1), "C": (12, 0)}
+GAS = {"H": (1, 0), "H2": (2, 0), "O": (16, 0), "OH": (17, 0), "CO": (28, 0), "H2O": (18, 0), "CH3OH": (32, 0), "HCO": (29, 0), "HCO+": (29, 1), "CO2": (44, 0), "H3O+": (19, 1), "OH-": (17, -1), "C+": (12, 1), "C": (12, 0), "D": (2, 0), "DCO": (30, 0), "OD": (18, 0)}
 EB_RATE12 = {"H": 600.0, "H2": 430.0, "O": 800.0, "OH": 2850.0, "CO": 1150.0, "H2O": 4800.0, "CH3OH": 4930.0, "HCO": 1600.0, "CO2": 2990.0}
 NO_EB = "C2H5C2H5O"  # an ice species without RATE12 entry (checked against the data file)
 
@@ -70,6 +70,10 @@ def reactions_for(path, model, variant, tier="quick"):
             add("surface", ["H2", "O"], a, [pre + "H2", pre + "O"], [pre + "H2O"], 13)
             add("reactive", ["H", "O"], a, [pre + "H", pre + "O"], ["OH"], 14)
             add("reactive", ["O", "OH"], a, [pre + "O", pre + "OH"], ["H2O"], 14)
+            if variant.get("user"):
+                # mass number 2 like H2, but not one of the tunnelling species of the model
+                add("surface", ["D", "CO"], a, [pre + "D", pre + "CO"], [pre + "DCO"], 13)
+                add("reactive", ["D", "O"], a, [pre + "D", pre + "O"], ["OD"], 14)
             if tier != "quick":
                 add("surface", ["O", "H"], a, [pre + "O", pre + "H"], [pre + "OH"], 13)
                 add("surface", ["O", "H2"], a, [pre + "O", pre + "H2"], [pre + "H2O"], 13)
@@ -111,6 +115,9 @@ def reactions_for(path, model, variant, tier="quick"):
             add("surface", ["H", "CO"], a, [pre + "H", pre + "CO"], [pre + "HCO"], codes["surface"])
             add("surface", ["CO", "O"], a, [pre + "CO", pre + "O"], [pre + "CO2"], codes["surface"])
             add("reactive", ["H", "O"], a, [pre + "H", pre + "O"], ["OH"], codes["reactive"])
+            if variant.get("user"):
+                add("surface", ["D", "CO"], a, [pre + "D", pre + "CO"], [pre + "DCO"], codes["surface"])
+                add("reactive", ["D", "O"], a, [pre + "D", pre + "O"], ["OD"], codes["reactive"])
             if tier != "quick":
                 add("surface", ["CO", "H"], a, [pre + "CO", pre + "H"], [pre + "HCO"], codes["surface"])
                 add("surface", ["O", "H2"], a, [pre + "O", pre + "H2"], [pre + "H2O"], codes["surface"])
@@ -152,7 +159,8 @@ def run_combo(arg):
     case = {"path": path, "model": model, "variant": variant}
     viols = []
     pre = "G" if path == "leeds" else "#"
-    user_eb = {pre + "CO": 1234.0} if variant.get("user") else {}
+    # (deuterium has no RATE12 binding energy: its ice species only exist with a user table)
+    user_eb = {pre + "CO": 1234.0, pre + "D": 650.0, pre + "DCO": 1700.0} if variant.get("user") else {}
     user_y = {pre + "CO": 2.5e-3, pre + "H2O": 4e-3} if variant.get("user") else {}
     if user_eb:
         chemistrydata.update_binding_energy(dict(user_eb))
@@ -282,7 +290,9 @@ def run_combo(arg):
         res = RR.build_and_run(files, grid, yvals)
         if res.get("compile_error"):
             first = next((ln for ln in res["compile_error"].splitlines() if "error" in ln), "")
-            viols.append((f"C11:compile-error:{path}:{model}", f"{label}: {first[:300]}", case))
+            mid = re.search(r"[‘'`]([^’']+)[’']", first)
+            ident = re.sub(r"[^A-Za-z0-9_]", "", mid.group(1))[:40] if mid else "other"
+            viols.append((f"C11:compile-error:{path}:{model}:{ident}", f"{label}: {first[:300]}", case))
             return label, nval, viols, [d["process"] + ":" + d.get("refused_by_path", "") for d in descs if d.get("refused_by_path")]
         if res.get("run_error"):
             raise HarnessError(res["run_error"])
